@@ -9,7 +9,7 @@ EXTENDS TestifyMock
 
 Trace == ndJsonDeserialize("trace.ndjson")
 VARIABLE l
-tvars == <<cls, exps, calls, nc, done, last, hist, l>>
+tvars == <<cls, exps, calls, nc, done, failed, last, hist, l>>
 
 Ev == Trace[l]
 IsEvent(e) == l <= Len(Trace) /\ Trace[l].op = e /\ l' = l + 1
@@ -31,18 +31,23 @@ ReplyOK(want, got) == Strict(want, got) \/ (want.lenient /\ got.kind = "panic" /
 Report(rec) == PrintT(<<"MISMATCH", ToJson(rec)>>) /\ TLCSet(1, TLCGet(1) + 1)
 
 TraceInit == /\ cls = [id |-> "", names |-> << >>, pk |-> << >>, vk |-> "none", rk |-> << >>, unroll |-> "unset", nm |-> 1, gen |-> FALSE]
-             /\ exps = << >> /\ calls = {} /\ nc = 0 /\ done = FALSE /\ last = [op |-> "init"] /\ hist = << >>
+             /\ exps = << >> /\ calls = {} /\ nc = 0 /\ done = FALSE /\ failed = FALSE /\ last = [op |-> "init"] /\ hist = << >>
              /\ l = 1
              /\ TLCSet(1, 0)
 
 TReset == /\ IsEvent("reset")
           /\ cls' = Ev.class
-          /\ exps' = << >> /\ calls' = {} /\ nc' = 0 /\ done' = FALSE
+          /\ exps' = << >> /\ calls' = {} /\ nc' = 0 /\ done' = FALSE /\ failed' = FALSE
           /\ UNCHANGED <<last, hist>>
 
 TExpect == /\ IsEvent("expect")
            /\ exps' = Append(exps, [m |-> Ev.m, ms |-> Ev.ms, style |-> Ev.style, rets |-> Ev.rets, rem |-> Ev.rem, total |-> 0])
-           /\ UNCHANGED <<cls, calls, nc, done, last, hist>>
+           /\ UNCHANGED <<cls, calls, nc, done, failed, last, hist>>
+
+\* the test's own t.Errorf (the recording TestingT reports Failed() from here on)
+TUserErrorf == /\ IsEvent("usererrorf")
+               /\ failed' = TRUE
+               /\ UNCHANGED <<cls, exps, calls, nc, done, last, hist>>
 
 TCall == /\ IsEvent("call")
          /\ LET as == Packed(cls, Ev.f, Ev.v)
@@ -55,6 +60,7 @@ TCall == /\ IsEvent("call")
                                style |-> IF i = 0 THEN "" ELSE exps[i].style,
                                expect |-> want, impl |-> ImplReply(cls, exps, Ev.m, Ev.f, Ev.v),
                                dev |-> Dev(cls, exps, Ev.m, Ev.f, Ev.v)])
+               /\ failed' = (failed \/ i = 0)
          /\ nc' = nc + 1
          /\ UNCHANGED <<cls, done, last, hist>>
 
@@ -65,10 +71,10 @@ TCleanup == /\ IsEvent("cleanup")
                ELSE Report([at |-> l, case |-> Ev.case, step |-> Ev.step, op |-> "cleanup", matched |-> 0, style |-> "",
                             expect |-> want, impl |-> ImplCleanup(exps, calls), dev |-> "none"])
             /\ done' = TRUE
-            /\ UNCHANGED <<cls, exps, calls, nc, last, hist>>
+            /\ UNCHANGED <<cls, exps, calls, nc, failed, last, hist>>
 
 \* an "error" event (the driver could not perform the step) matches no action: the trace is rejected there
-TraceNext == TReset \/ TExpect \/ TCall \/ TCleanup
+TraceNext == TReset \/ TExpect \/ TUserErrorf \/ TCall \/ TCleanup
 
 TraceSpec == TraceInit /\ [][TraceNext]_tvars
 
